@@ -30,6 +30,8 @@ import LinVerif.Lemmas.C09KvStale
 import LinVerif.Lemmas.C09Compact
 import LinVerif.Lemmas.C09Hist
 import LinVerif.Lemmas.C09Blocks
+import LinVerif.Lemmas.C09Buf
+import LinVerif.Model.IdAssignView
 import LinVerif.Generated.C10
 
 namespace LinVerif.Props.C09
@@ -728,5 +730,124 @@ theorem worker_verdict : WorkerVerdict currentCfg.memdbPrepareInline := by
   cases h : currentCfg.memdbPrepareInline with
   | true => exact worker_histories_are_sequential
   | false => exact Neg.series_prepare_between_inserts
+
+/-! ## The store keeps no reference to the caller's bytes
+
+The write path passes names as views into a reused block (`metric.StorageRow` over the replica's decode
+buffer) and overwrites the block with the next batch. Model/IdAssignBuf.lean has the buffer, views and a
+dictionary whose keys are copies (`Key.own`, lindb) or references (`Key.ref`, what a zero-copy conversion
+keeps); Model/IdAssignView.lean runs the node's operations on views. -/
+
+open Buf
+
+/-- `buildInvertIndex` (what `GenSeriesID` does for a new series, and what the harness's reused-block region
+replays call by call): per tag, the key view goes to `GenTagKeyID`, then the value view to `GenTagValueID`,
+then both postings are written under the index lock -/
+theorem build_invert_order_tie :
+    C09.indexBuildInvertCalls.filter (fun c => c ∈ ["tags.HasNext", "tags.NextKey", "metaDB.GenTagKeyID", "tags.NextValue",
+      "metaDB.GenTagValueID", "lock.Lock", "inverted.put", "forward.put", "lock.Unlock"]) =
+    ["tags.HasNext", "tags.NextKey", "metaDB.GenTagKeyID", "tags.NextValue", "metaDB.GenTagValueID",
+     "lock.Lock", "inverted.put", "forward.put", "lock.Unlock"] := by decide
+
+/-- the namespace / metric-name limits are off by default (the model has no refusal of a namespace or a
+metric name: `genNSID` / `genMetricID` test `MaxNamespaces > 0` / `MaxMetrics > 0` first), and
+`getOrCreateValue` is not wrapped in a retry loop -/
+theorem ns_metric_limits_off_tie :
+    C09.defaultMaxNamespaces = 0 ∧ C09.defaultMaxMetrics = 0 ∧ C09.kvRetryLoopCalls = [] := by decide
+
+/-- the three places where a name is kept use a copying conversion (regenerated on every run) -/
+theorem name_copy_tie : currentNamesCopied = true := by decide
+
+/-- **Refinement**: for the copying dictionary and every history of calls and buffer writes, the answers are
+those of the value-level dictionary fed with the copies taken at call time -/
+theorem copy_store_ignores_buffer (ops : List Buf.Op) (buf : Bytes) :
+    Buf.run false {} buf ops = vrun {} (materialize buf ops) := by
+  rw [run_copy_eq_values ops {} buf allOwn_empty, toVS_empty]
+
+/-- **The result is independent of later mutations of the argument buffer**: after any history (calls with
+views, overwrites in between) every name resolves to the same id whatever the buffer holds afterwards -/
+theorem lookup_independent_of_buffer (ops : List Buf.Op) (buf0 buf buf' name : Bytes) :
+    (finalStore false {} buf0 ops).find buf name = (finalStore false {} buf0 ops).find buf' name :=
+  find_indep _ (finalStore_allOwn ops {} buf0 allOwn_empty) buf buf' name
+
+/-- same name ⇒ same id, judged on the copies of the names taken at call time, for every history -/
+theorem buf_stable (ops : List Buf.Op) (buf name : Bytes) (i j : Nat)
+    (hi : (name, i) ∈ Buf.run false {} buf ops) (hj : (name, j) ∈ Buf.run false {} buf ops) : i = j := by
+  rw [copy_store_ignores_buffer] at hi hj
+  exact vrun_stable _ _ name i j hi hj
+
+/-- different names ⇒ different ids -/
+theorem buf_injective (ops : List Buf.Op) (buf n m : Bytes) (i : Nat)
+    (hn : (n, i) ∈ Buf.run false {} buf ops) (hm : (m, i) ∈ Buf.run false {} buf ops) : n = m := by
+  rw [copy_store_ignores_buffer] at hn hm
+  exact vrun_injective _ _ vinv_empty n m i hn hm
+
+/-- non-vacuity: two calls through ONE view with an overwrite in between are two names with two ids -/
+example : Buf.run false {} [109, 48] [.call ⟨0, 2⟩, .write 0 [109, 49], .call ⟨0, 2⟩, .write 0 [109, 48], .call ⟨0, 2⟩]
+    = [([109, 48], 0), ([109, 49], 1), ([109, 48], 0)] := by decide
+
+namespace Neg
+
+/-- a dictionary that keeps a REFERENCE (`kvs[strutil.ByteSlice2String(key)] = id`): the caller overwrites
+its buffer with the next name, and that name is answered with the first name's id -/
+theorem alias_shares_id :
+    Buf.run true {} [109, 48] [.call ⟨0, 2⟩, .write 0 [109, 49], .call ⟨0, 2⟩] = [([109, 48], 0), ([109, 49], 0)] := by decide
+
+/-- … and the first name, presented again from another place, has lost its id and gets a second one -/
+theorem alias_second_id :
+    Buf.run true {} [109, 48, 109, 48] [.call ⟨0, 2⟩, .write 0 [109, 49], .call ⟨2, 2⟩] = [([109, 48], 0), ([109, 48], 1)] := by decide
+
+end Neg
+
+def BufVerdict : Bool → Prop
+  | true => (∀ (ops : List Buf.Op) (buf name : Bytes) (i j : Nat),
+        (name, i) ∈ Buf.run false {} buf ops → (name, j) ∈ Buf.run false {} buf ops → i = j) ∧
+      (∀ (ops : List Buf.Op) (buf n m : Bytes) (i : Nat),
+        (n, i) ∈ Buf.run false {} buf ops → (m, i) ∈ Buf.run false {} buf ops → n = m)
+  | false => Buf.run true {} [109, 48] [.call ⟨0, 2⟩, .write 0 [109, 49], .call ⟨0, 2⟩] = [([109, 48], 0), ([109, 49], 0)]
+
+/-- **buffer_verdict**: decided for the conversions /repo uses now where it keeps a name -/
+theorem buffer_verdict : BufVerdict currentNamesCopied := by
+  cases h : currentNamesCopied with
+  | true => exact ⟨buf_stable, buf_injective⟩
+  | false => exact Neg.alias_shares_id
+
+/-- **A history over a reused buffer is a value-level history.** Whatever the caller loads into or writes
+over its buffer between the calls, the node ends where the history of the materialised calls (each view
+replaced by the copy of the bytes it showed when the call was made) ends — the node holds no reference. -/
+theorem buffer_history_is_value_history (c : Cfg) (bops : List BOp) : ∀ (st st' : BNode),
+    brun c st bops = some st' → ∃ ops, bmaterialize st.buf bops = some ops ∧ st'.nd = IdAssign.run c st.nd ops := by
+  induction bops with
+  | nil => intro st st' h; simp only [brun, Option.some.injEq] at h; subst h; exact ⟨[], rfl, rfl⟩
+  | cons b rest ih =>
+    intro st st' h
+    simp only [brun, bstep] at h
+    cases hb : b.toOp st.buf with
+    | none => simp [hb] at h
+    | some o =>
+      cases o with
+      | none =>
+        simp only [hb] at h
+        obtain ⟨ops, h1, h2⟩ := ih _ st' h
+        exact ⟨ops, by simp only [bmaterialize, hb]; exact h1, h2⟩
+      | some op =>
+        simp only [hb] at h
+        obtain ⟨ops, h1, h2⟩ := ih _ st' h
+        refine ⟨op :: ops, ?_, ?_⟩
+        · simp only [bmaterialize, hb]; simp only at h1; rw [h1]; rfl
+        · simpa [IdAssign.run] using h2
+
+/-- hence `stable` / `injective` speak about callers that reuse their buffer -/
+theorem stable_over_reused_buffer (c : Cfg) {nd : Node} (inv : NodeInv nd) (buf : Bytes) (bops : List BOp) (st' : BNode)
+    (hr : brun c { nd := nd, buf := buf } bops = some st') :
+    ∃ ops, bmaterialize buf bops = some ops ∧ st'.nd = IdAssign.run c nd ops ∧
+      (epochOk c nd ops → ∀ k i j, (k, i) ∈ observations c nd ops → (k, j) ∈ observations c nd ops → i = j) ∧
+      (epochOk c nd ops → ∀ k k' i, k.sameScope k' → (k, i) ∈ observations c nd ops → (k', i) ∈ observations c nd ops → k = k') := by
+  obtain ⟨ops, h1, h2⟩ := buffer_history_is_value_history c bops _ st' hr
+  exact ⟨ops, h1, h2, fun h k i j a b => stable c inv ops h a b, fun h k k' i hs a b => injective c inv ops h hs a b⟩
+
+/-- non-vacuity: the block is overwritten between two `GenMetricID` calls through the same two views -/
+example : (brun {} {} [.load [97, 110, 115, 48, 109, 48], .metric ⟨0, 4⟩ ⟨4, 2⟩, .load [97, 110, 115, 48, 109, 49],
+      .metric ⟨0, 4⟩ ⟨4, 2⟩]).map (fun st => (st.nd.getMetric 97 0 0, st.nd.getMetric 97 0 1)) = some (some 0, some 1) := by decide
 
 end LinVerif.Props.C09
